@@ -533,7 +533,7 @@ for nm, q in [("add_3", True), ("add_1", False), ("ldr_3", False), ("not_2", Tru
       bounds="exactly that many operand tokens of any kind; 8-byte ASCII source")
 H("C05", "parser::verif_h::c05_parse_total_trap", PAR, covers=2, stubs=PE_STUBS, timeout=3000, mem_gb=24, functions=["AsmParser::parse_trap"],
   what="parse_trap (any trap kind) on <= 1 token of any kind", bounds="<= 1 operand token")
-for n in (1, 2):
+for n in (1,):
     H("C05", f"parser::verif_h::c05_parse_loop_total_{n}", PAR, tier=("quick" if n == 1 else "thorough"), covers=1, timeout=3000, mem_gb=30,
       stubs=PE_STUBS + ["AsmParser::parse_instr / parse_trap -> any result (their contract)", "error::parse_duplicate_label -> contract"],
       functions=["AsmParser::parse", "AsmParser::optional_label", "Air::add_stmt", "Air::set_orig", "Breakpoints::insert", "Label::insert"],
@@ -679,10 +679,6 @@ for nm, what, props, q in [
     ("c01_pre_blkw_hex0", ".blkw x0: no word", ["C01"], False),
     ("c01_pre_blkw_hex2", ".blkw x2: two zero words", ["C01"], True),
     ("c01_pre_blkw_dec3", ".blkw #3: three zero words", ["C01"], False),
-    ("c01_pre_stringz", ".stringz \"a\\n\": unescaped code points + terminating zero, text sliced from the real source", ["C01", "C05"], False),
-    ("c01_pre_stringz_backslash_n", ".stringz with an escaped backslash followed by the letter n: backslash, n, 0", ["C01"], False),
-    ("c01_pre_stringz_nonascii", ".stringz with a 2-byte character: one word per character (U+00E9), then 0", ["C01"], False),
-    ("c01_pre_stringz_nonascii_escape", ".stringz with a 2-byte character before an escape: no slicing inside the character", ["C01", "C05"], False),
     ("c01_pre_break_end", ".break -> Breakpoint token, .end stops, comments vanish", ["C01", "C11"], False),
     ("c05_pre_directive_wrong_operand", ".fill/.blkw/.stringz followed by a token of any non-literal kind or by nothing: diagnostic, no panic", ["C05"], True),
 ]:
@@ -701,3 +697,9 @@ H("C01", "lexer::verif_h::c01_separator_set", LEX, covers=2, functions=["lexer::
   what="separator / register-digit / identifier character classes for every char", bounds="complete")
 H("C01", "lexer::verif_h::c01_separator_before_register", LEX, tier="thorough", covers=1, stubs=[FMT, KW], timeout=4000, mem_gb=24,
   functions=["Cursor::advance_real", "Cursor::advance_token"], what="<separator><r|R><0-7>: every separator, both cases, every register -> the same register token", bounds="3 bytes")
+for nm, what in [("c01_unescape_plain", "no escape"), ("c01_unescape_newline", "\\\\n -> LF"), ("c01_unescape_backslash_n", "escaped backslash followed by n -> backslash, n"),
+                 ("c01_unescape_nonascii_escape", "2-byte character before an escape: no slicing inside the character"), ("c01_unescape_quote_tab", "\\\\\\" and \\\\t")]:
+    for pp in (("C01", "C05") if "nonascii" in nm else ("C01",)):
+        H(pp, f"parser::verif_h::{nm}", PAR, tier="thorough", covers=1, timeout=3000, mem_gb=24,
+          stubs=["core::slice::memchr::memchr (behind str::find) -> plain byte loop with the same contract"], functions=["unescape"],
+          what=f".stringz escape processing on a concrete literal: {what}", bounds="concrete literal of <= 4 bytes")
